@@ -14,7 +14,7 @@ ASSUMPTIONS = ["prior weights on the simplex and > 0, prior variances > 0, prior
                "monotonicity of the relevance-penalised likelihood follows from exact E-step (C02) + the M-step being the stationary point of Q(mu) - r/2 sum (mu-mu0)^2/var (proved here) + Jensen (trusted)"]
 EXHAUSTIVE = ["8 combinations of update_means/variances/weights", "Reynolds / scalar alpha / per-component alpha", "statistics given as one object or split in two (reduced by the wrapper)"]
 OUTSIDE = ["sizes beyond (C,D) listed", "rounding"]
-SIZES = {"quick": [(1, 1), (2, 2)], "thorough": [(1, 1), (2, 2), (3, 2)]}
+SIZES = {"quick": [(1, 1), (2, 2)], "thorough": [(1, 1), (2, 2), (3, 2), (3, 3)]}
 KNOWN = "C05-map-variance-prior-mean-not-squared"
 
 
@@ -76,6 +76,11 @@ def sc_map(B, C, D, um, uv, uw, mode, split=False):
     if uw:
         raw = [al[c] * n[c] / t + (1 - al[c]) * w0[c] for c in range(C)]
         tot = total(raw)
+        if B.sym and mode == "reynolds":
+            # each un-normalised weight is positive (alpha < 1 and the prior weight is positive):
+            # proved per component, then used to show that the normaliser is not zero
+            for c in range(C):
+                o.lemma("raw-weight-positive-%d" % c, raw[c] > 0)
         o.equal("weights", m.weights, [raw[c] / tot for c in range(C)])
         o.equal("weights-sum-to-one", total([m.weights[c] for c in range(C)]), 1)
     else:
